@@ -669,6 +669,28 @@ func EvalRange(e *Expr, env Env) (Rng, bool) {
 			}
 		}
 	case OpCall:
+		if e.Fn == nil && (e.Name == "min" || e.Name == "max") && len(e.Args) >= 1 {
+			// builtin min/max
+			var out Rng
+			for i, a := range e.Args {
+				r, ok := EvalRange(a, env)
+				if !ok {
+					return Rng{}, false
+				}
+				if i == 0 {
+					out = r
+					continue
+				}
+				pick := func(x, y *big.Rat) *big.Rat {
+					if (e.Name == "min") == (x.Cmp(y) < 0) {
+						return x
+					}
+					return y
+				}
+				out = Rng{pick(out.Lo, r.Lo), pick(out.Hi, r.Hi)}
+			}
+			return out, true
+		}
 		if e.Fn != nil {
 			switch e.Fn.String() {
 			case "(time.Duration).Seconds":
